@@ -2,8 +2,8 @@
 """Re-write seeded/<name>/patch.diff against the current /repo tree after the library was repaired nearby.
 
 For every patch that `git apply --check` refuses: apply it with `patch -p1` (fuzz allowed) to a scratch copy of the current
-tree, regenerate a zero-offset diff, and run the change's demo.py against the scratch copy (it must still fail, which shows
-the hunk landed where it was meant to).  Patches that do not apply even with fuzz are reported for a manual rewrite.
+tree, regenerate a zero-offset diff, check that the patched package still imports, and run the change's demo.py against the
+scratch copy (it must still fail, which shows the hunk landed where it was meant to).  Patches that do not apply even with fuzz are reported for a manual rewrite.
 patch.orig.diff keeps the sub-agent's original."""
 import glob, json, os, re, shutil, subprocess, sys, tempfile
 
@@ -28,6 +28,11 @@ def main():
                 continue
             for f in glob.glob(root + '/b/fxpmath/*.orig') + glob.glob(root + '/b/fxpmath/*.rej'):
                 os.remove(f)
+            imp = subprocess.run(['/venv/bin/python', '-c', 'import fxpmath'], cwd='/tmp', env=dict(os.environ, PYTHONPATH=root + '/b'), capture_output=True, text=True)
+            if imp.returncode != 0:
+                print('MANUAL  %-46s applies with fuzz but the patched tree does not import (hunk landed at a wrong indentation)' % name)
+                bad += 1
+                continue
             demo = subprocess.run(['/venv/bin/python', os.path.join(os.path.dirname(d), 'demo.py')], cwd=root, env=dict(os.environ, PYTHONPATH=root + '/b'),
                                   capture_output=True, text=True)
             if demo.returncode == 0:
